@@ -9,6 +9,7 @@
 //   3V       => either, but self-consistent (accepted => effect of the sibling message; rejected => nothing changed) and the same
 //               class of message always gets the same answer.
 #include "vlib.hpp"
+#include "vsmf.hpp"
 
 static const char *harness_name() { return "c19_sysex"; }
 static void harness_init() { default_bank(); }
@@ -541,8 +542,67 @@ static void judge(Ctx &x, const char *fam, const Bytes &m, int rc, const Snap &a
 }
 
 // ------------------------------------------------------------------------------------------
+// ------------------------------------------------------------------------------------------
+// stage file: the same strings reaching the synthesizer from a Standard MIDI File. An F0 event of a file is a complete message;
+// an F7 event is an escape / continuation packet whose bytes do not start with F0, so it is not framed by F0..F7 and must change
+// nothing, whatever it contains.
+// ------------------------------------------------------------------------------------------
+static void stage_file(Case &c)
+{
+    Rng &r = c.rng;
+    OPN2_MIDIPlayer *dev = NULL;
+    API("opn2_init", dev = opn2_init(22050));
+    if(!dev) { c.violation("oracle:init-failed", "opn2_init returned NULL"); return; }
+    int rc = 0;
+    API("opn2_switchEmulator", rc = opn2_switchEmulator(dev, r.chance(0.5) ? 0 : 2));
+    { ExactBuf b(default_bank()); API("opn2_openBankData", rc = opn2_openBankData(dev, b.p, (long)b.n)); }
+    const int kind = (int)r.below(4);          // 0 GM on, 1 GS reset, 2 XG on, 3 master volume
+    const bool escape = r.chance(0.5);         // F7 event instead of F0
+    const int vol = r.range(1, 99), mv = r.range(1, 126);
+    Bytes msg = kind == 0 ? mk_gm(0x7F, true) : kind == 1 ? mk_roland(0x10, 0x40, 0x00, 0x7F, 0x00) : kind == 2 ? mk_xg(0x10, 0) : mk_mvol(0x7F, 0, (unsigned)mv);
+    // the file: CC7 on channel 0 and a preparatory mode (so that the switch under test changes something), then the event, then a note
+    Song sg; sg.format = 0; sg.division = 96; sg.running_status = false; sg.tracks.resize(1);
+    int serial = 0;
+    auto push = [&](SEv e) { e.serial = serial++; sg.tracks[0].ev.push_back(e); };
+    auto sysex = [&](uint64_t tick, uint8_t status, const Bytes &m) { SEv e; e.tick = tick; e.status = status; e.meta = 0; e.data.assign(m.begin() + 1, m.end()); push(e); };   // payload = everything behind the leading F0
+    const Bytes prep = kind == 2 ? mk_gm(0x7F, true) : mk_xg(0x10, 0);          // XG on is tested from GM, the others from XG
+    sysex(0, 0xF0, prep);
+    push(mk_chan(10, 0xB0, 7, vol));
+    sysex(20, escape ? 0xF7 : 0xF0, msg);
+    push(mk_chan(30, 0x90, 60, 100)); push(mk_chan(60, 0x80, 60, 0));
+    push(mk_meta(60, 0x2F, std::vector<uint8_t>()));
+    std::vector<uint8_t> file = serialize_song(sg);
+    { ExactBuf in(file); API("opn2_openData", rc = opn2_openData(dev, in.p, (unsigned long)in.n)); }
+    if(rc != 0) { c.violation("oracle:C19:file:wellformed-file-rejected", opn2_errorInfo(dev)); API("opn2_close", opn2_close(dev)); return; }
+    double delay = 0; long guard = 0;
+    while(guard++ < 100000) { double nd = 0; API("opn2_tickEvents", nd = opn2_tickEvents(dev, delay, 1e-6)); int e = 0; API("opn2_atEnd", e = opn2_atEnd(dev)); if(e) break; delay = nd; }
+    OPNMIDIplay *p = P(dev);
+    const int mode = (int)p->m_synthMode, v0 = p->m_midiChannels[0].volume, master = (int)p->m_synth->m_masterVolume;
+    const int mode_before = kind == 2 ? MODE_GM : MODE_XG, mode_after = kind == 0 ? MODE_GM : kind == 1 ? MODE_GS : kind == 2 ? MODE_XG : mode_before;
+    static const char *kn[] = {"gm-on", "gs-reset", "xg-on", "master-volume"};
+    std::string ctx = vfmt("%s event %s in a file (CC7=%d before it): mode %d, channel 0 volume %d, master volume %d afterwards", escape ? "F7" : "F0", hexs(msg, 40).c_str(), vol, mode, v0, master);
+    if(escape)
+    {
+        if(mode != mode_before || v0 != vol || master != 127)
+            c.violation(std::string("oracle:C19:file:escape-event-took-effect:") + kn[kind], ctx + vfmt("; expected mode %d, volume %d, master volume 127 (an F7 packet is not a framed message)", mode_before, vol));
+    }
+    else
+    {
+        if(kind < 3 && (mode != mode_after || v0 != 100))
+            c.violation(std::string("oracle:C19:file:message-without-effect:") + kn[kind], ctx + vfmt("; expected mode %d and the controllers reset (volume 100)", mode_after));
+        if(kind == 3 && (master != mv || v0 != vol || mode != mode_before))
+            c.violation(std::string("oracle:C19:file:message-without-effect:") + kn[kind], ctx + vfmt("; expected master volume %d, volume %d, mode %d", mv, vol, mode_before));
+    }
+    c.nontrivial = true;
+    cover(vfmt("file|%s|%s", kn[kind], escape ? "F7" : "F0"));
+    c.sig = vfmt("file|%d|%d", kind, (int)escape);
+    c.sample(std::string("{\"stage\":\"file\",\"context\":") + jstr(ctx) + "}");
+    API("opn2_close", opn2_close(dev));
+}
+
 static void run_case(Case &c)
 {
+    if(g_w.stage == "file") { stage_file(c); return; }
     Rng &r = c.rng;
     const int sel = (int)(c.k % 8);                       // 0..6 mutation sweep of one kind, 7 random strings
     const unsigned id = (unsigned)((c.k / 8) % 16);
